@@ -319,6 +319,9 @@ def run(ctx):
     _C20t.r12_subtractions(ctx, _C20t.input_reachable(ctx))   # no subtraction (sizes, Durations) that can underflow and kill the task that computes it
     from . import effects
     effects.check_property(ctx, "C10")    # R10.E: no operation on shared protocol state outside the reviewed table
+    from . import C13 as _C13p, C20 as _C20e
+    _C13p.r9_lookup_makes_progress(ctx)   # the pool look-up in front of every open terminates: an open always gets *some* outcome
+    _C20e.r10_read_loops(ctx, _C20e.input_reachable(ctx))   # a read of 0 bytes ends the receive loop whatever is left in the buffer: an end of the connection in the middle of a frame closes the session, so pending opens hear of it
     from . import C03 as _C03d, C05 as _C05d
     _C03d.r3_totality(ctx)           # the decoder is total: no frame the peer may legally send (any command byte, any declared length) makes it return an error
     _C05d.r7_batching(ctx)          # the SYN and the destination of every open leave the client: buffering is switched off on the way to every first data write, whatever happened to earlier opens
